@@ -11,12 +11,14 @@ vars == <<pc, call, exp>>
 
 \* two fixed, different contents per length
 Pat(l, k) == [q \in 1..l |-> (k * q + k) % Alpha]
+\* the same content with an unknown character (all-zero column, symbol -1) in the middle
+PatN(l, k) == [q \in 1..l |-> IF q = (l + 1) \div 2 THEN -1 ELSE Pat(l, k)[q]]
 IsCall(c) ==
     \E l \in 1..MaxL, n \in 1..2, start \in 0..(MaxL - 1), end \in (-MaxL)..MaxL :
       /\ start < l /\ end <= l /\ end >= -l
       /\ WindowOK(Pat(l, 1), start, end)
-      /\ \E bs \in {1, 3, Alpha * l + 1}, withargs \in BOOLEAN :
-         LET x == IF n = 1 THEN <<Pat(l, 1)>> ELSE <<Pat(l, 1), Pat(l, 2)>>
+      /\ \E bs \in {1, 3, Alpha * l + 1}, withargs \in BOOLEAN, withN \in BOOLEAN :
+         LET x == IF n = 1 THEN <<(IF withN THEN PatN(l, 1) ELSE Pat(l, 1))>> ELSE <<Pat(l, 1), (IF withN THEN PatN(l, 2) ELSE Pat(l, 2))>>
              args == IF withargs THEN (IF n = 1 THEN <<5>> ELSE <<5, 11>>) ELSE <<>> IN
          \/ \E out \in {"tensor", "tuple"} : c = Call(x, args, start, end, bs, out, 2, -1, 0, FALSE, TRUE)
          \/ \E hyp \in BOOLEAN, tg \in {<<-1, 0>>, <<0, 1>>, <<1, 2>>, <<0, 2>>, <<1, 3>>} :
@@ -30,7 +32,7 @@ Ret == pc = "ret" /\ exp.zone = "accept"
 \* the mutant that re-writes the observed character is the original sequence: its row of yhat equals y0
 SelfMutant == (Ret /\ call.raw) =>
     \A n \in 1..Len(call.x) : \A q \in 1..Len(exp.yhat[n][1]) :
-        exp.yhat[n][call.x[n][call.start + q] + 1][q] = exp.y0[n]
+        call.x[n][call.start + q] >= 0 => exp.yhat[n][call.x[n][call.start + q] + 1][q] = exp.y0[n]
 \* centring: attributions over characters sum to zero at every position when hypothetical
 Centred == (Ret /\ ~call.raw /\ call.hyp) =>
     \A n \in 1..Len(call.x) : \A q \in 1..Len(exp.attr[n][1]) :
